@@ -92,7 +92,8 @@ def make_input(rng, spec):
     tz = spec["tz"]
     days = spec["days"]
     start = pd.Timestamp("2019-01-01") + pd.Timedelta(days=int(rng.integers(0, 700)))
-    s = (start + pd.Timedelta(hours=int(rng.integers(0, 24)))).tz_localize("UTC").tz_convert(tz).floor("h")
+    s = (start + pd.Timedelta(hours=int(rng.integers(0, 24)))).tz_localize("UTC").tz_convert(tz)
+    s = s - pd.Timedelta(minutes=s.minute, seconds=s.second)        # on the local hour (no wall-clock rounding: safe on DST days)
     idx = pd.date_range(s, periods=days * 24 + int(rng.integers(-20, 20)), freq="h")
     n = len(idx)
     hod = idx.hour.values
